@@ -42,7 +42,9 @@ def goFacts : GoFacts :=
     casesPerStatement := true,
     selectCopiesCases := true,
     callArgStores := ["dest[i] = genFunctionWrapper(nod)(f)", "dest[i].Set(val)", "vararg.Set(reflect.Append(vararg, v(f)))", "vararg.Set(v(f))"],
-    frameCellInits := ["nf.data[i] = reflect.New(def.types[i]).Elem()", "nf.data[i] = v(f)", "nf.data[numRet+i] = reflect.New(t).Elem()"],
+    -- since 1b5ab85 (round 5, F04-20 / F01) the result cells of a call frame are always fresh cells of the callee
+    -- (`nf.data[i] = v(f)`, the aliasing of the caller's destination, is gone): every cell of a call frame is private
+    frameCellInits := ["nf.data[i] = reflect.New(def.types[i]).Elem()", "nf.data[numRet+i] = reflect.New(t).Elem()"],
     goStmts := ["call: go callf(in)", "call: go runCfg(def.child[3].start, nf, def, n)"],
     newFrameCalls := ["call: nf := newFrame(f, len(def.types), f.runid())", "genFunctionWrapper: fr := newCallFrame(n.interp, f, len(def.types), e)", "getFunc: fr2 := newCallFrame(n.interp, fr, len(n.types), fr.getEpoch())"],
     goValueArgLoop := ["value := v(f)", "in[i] = reflect.New(value.Type()).Elem()", "in[i].Set(value)"],
